@@ -1019,6 +1019,17 @@ pub fn run_udp(a: &Args) {
         let gaddr = SocketAddr::new(group.ip(), port);
         match nm.ctl.listen(t, gaddr) {
             Ok((mlid, _)) => {
+                // a member of a group is still reachable at its own host:port (a peer answers to the address its
+                // datagram came from): a unicast datagram to 127.0.0.1:<group port> is delivered, attributed to its sender
+                {
+                    let direct = UdpSocket::bind("127.0.0.1:0").unwrap();
+                    let me = direct.local_addr().unwrap();
+                    let before = nm.snapshot().len();
+                    let sent = direct.send_to(b"direct to the member", SocketAddr::from(([127, 0, 0, 1], port))).is_ok();
+                    let ok = nm.wait(1000, |ev| ev[before.min(ev.len())..].iter().any(|e| matches!(e, Ev::Message(ep, d) if ep.addr() == me && ep.resource_id() == mlid && d == b"direct to the member")));
+                    if sent && !ok { out.violation(&format!("[C12] Udp multicast listener on {}: a unicast datagram sent to 127.0.0.1:{} (the member's own host:port, where a peer's reply goes) was not delivered", gaddr, port)); }
+                    out.count("udp_multicast_member_unicast");
+                }
                 let member = socket2::Socket::new(socket2::Domain::IPV4, socket2::Type::DGRAM, Some(socket2::Protocol::UDP)).unwrap();
                 let _ = member.set_reuse_address(true); let _ = member.set_reuse_port(true);
                 let joined = member.bind(&SocketAddr::from(([0, 0, 0, 0], port)).into()).is_ok() && member.join_multicast_v4(&"239.255.0.77".parse().unwrap(), &std::net::Ipv4Addr::UNSPECIFIED).is_ok();
